@@ -480,11 +480,32 @@ def _d2_dbcheck(ctx):
                                 return True
                             h = ctx.repo.funcs.get("%s.%s" % (fn.module.stem, nmc))
                             if h is not None and depth:
-                                cond_app = any(isinstance(c, ast.Call) and isinstance(c.func, ast.Attribute) and c.func.attr in ("append", "add")
-                                               and any(True for _ in C.facts_at(c, stop=h.node)) for c in ast.walk(h.node))
+                                # conditional appends: an element is kept only under a condition. `key not in seen` with a key that is
+                                # the element's position (enumerate index) keeps every element; a key computed from the element
+                                # (its printed name, ...) can merge distinct elements; other conditions are not understood
+                                cond_app, unknown_cond = False, False
+                                hp = h.params()
+                                for c in ast.walk(h.node):
+                                    if not (isinstance(c, ast.Call) and isinstance(c.func, ast.Attribute) and c.func.attr == "append"):
+                                        continue
+                                    for e_, pol_ in C.norm_fact_nodes(c, stop=h.node):
+                                        if "len(" in U(e_) and any(p_ in U(e_) for p_ in hp):
+                                            continue        # a guard on the size of the argument
+                                        if (not pol_) and isinstance(e_, ast.Compare) and len(e_.ops) == 1 and isinstance(e_.ops[0], ast.In):
+                                            key = e_.left
+                                            lp_ = C.enclosing_loop(c)
+                                            positional = isinstance(key, ast.Name) and isinstance(lp_, ast.For) and C.is_call_to(lp_.iter, "enumerate") \
+                                                and isinstance(lp_.target, ast.Tuple) and U(lp_.target.elts[0]) == key.id \
+                                                and len(lp_.iter.args) >= 1 and U(lp_.iter.args[0]) in hp
+                                            if not positional:
+                                                cond_app = True
+                                        else:
+                                            unknown_cond = True
+                                if unknown_cond and not cond_app:
+                                    return None
                                 comp_if = any(isinstance(c, ast.comprehension) and c.ifs for c in ast.walk(h.node))
                                 dedup = any(isinstance(c, ast.Call) and (pm.call_name(c) or "").split(".")[-1] in ("set", "fromkeys", "filter")
-                                            for c in ast.walk(h.node))
+                                            and c.args for c in ast.walk(h.node))
                                 if cond_app or comp_if or dedup:
                                     return True
                                 return None
